@@ -3,7 +3,11 @@
 (* Trace validation for C14: concurrent histories recorded from the real   *)
 (* p9p.SFileSys (invoke / return of session calls, enter / exit of         *)
 (* FileSys calls, each with a global sequence number) are checked for      *)
-(*   - mutual exclusion of FileSys calls per entry (invariant), and        *)
+(*   - mutual exclusion of FileSys calls per entry (invariant; Dirent.Qid   *)
+(*     counts as a call on the entry),                                     *)
+(*   - no FileSys call on an entry after its release (clunk / remove) or   *)
+(*     after a successful create consumed it (invariant),                  *)
+(*   - a successful open answers with the qid of the entry it opened, and  *)
 (*   - linearizability against the sequential fid table: TLC searches for  *)
 (*     linearization points (silent Lin steps between invoke and return)   *)
 (*     such that every recorded result is the sequential one.              *)
@@ -17,13 +21,15 @@ Fids == 0..7
 Procs == 0..5
 Tr == ndJsonDeserialize(IOEnv.TRACE)
 
-VARIABLES l, tab, pend, infs
-vars == <<l, tab, pend, infs>>
+VARIABLES l, tab, pend, infs, dead, uar, badq
+vars == <<l, tab, pend, infs, dead, uar, badq>>
 
-Blank == [b |-> FALSE, o |-> FALSE]
-Idle == [active |-> FALSE, lin |-> FALSE, k |-> "", f |-> 0, nf |-> 0, out |-> "", res |-> ""]
+\* b: bound, o: open, d: denotes a directory
+Blank == [b |-> FALSE, o |-> FALSE, d |-> FALSE]
+Idle == [active |-> FALSE, lin |-> FALSE, k |-> "", f |-> 0, nf |-> 0, out |-> "", res |-> "", oh |-> 0]
 
 Init == /\ l = 1 /\ tab = [f \in Fids |-> Blank] /\ pend = [p \in Procs |-> Idle] /\ infs = {}
+        /\ dead = {} /\ uar = {} /\ badq = FALSE
 
 R(t, res) == [t |-> t, res |-> res]
 \* the sequential fid table (C08) restricted to what these histories use
@@ -34,8 +40,21 @@ SeqApply(t, q) ==
     [] q.k = "walk" ->
          IF ~t[f].b THEN R(t, "unknownfid")
          ELSE IF nf # f /\ t[nf].b THEN R(t, "dupfid")
+         ELSE IF nf = f THEN R(t, "")                      \* no names, same fid: a no-op
+         ELSE IF q.out # "clone" /\ ~t[f].d THEN R(t, "notdir")
          ELSE IF q.out = "fail" THEN R(t, "fs")
-         ELSE R([t EXCEPT ![nf] = [b |-> TRUE, o |-> IF nf = f THEN t[f].o ELSE FALSE]], "")
+         ELSE R([t EXCEPT ![nf] = [b |-> TRUE, o |-> FALSE, d |-> IF q.out = "clone" THEN t[f].d ELSE TRUE]], "")
+    [] q.k = "walkin" ->   \* one name, in place: the fid moves to the entry found (its open state is not touched)
+         IF ~t[f].b THEN R(t, "unknownfid")
+         ELSE IF ~t[f].d THEN R(t, "notdir")
+         ELSE IF q.out = "fail" THEN R(t, "fs")
+         ELSE R([t EXCEPT ![f].d = TRUE], "")
+    [] q.k = "create" ->   \* out: ok (plain file) / dir / dirfail (directory made, its opening fails) / fail
+         IF ~t[f].b THEN R(t, "unknownfid")
+         ELSE IF ~t[f].d THEN R(t, "createnondir")
+         ELSE IF q.out = "fail" THEN R(t, "fs")
+         ELSE IF q.out = "dirfail" THEN R([t EXCEPT ![f] = Blank], "fs")
+         ELSE R([t EXCEPT ![f] = [b |-> TRUE, o |-> TRUE, d |-> q.out = "dir"]], "")
     [] q.k = "open" ->
          IF ~t[f].b THEN R(t, "unknownfid")
          ELSE IF t[f].o THEN R(t, "alreadyopen")
@@ -47,7 +66,7 @@ SeqApply(t, q) ==
     [] q.k = "attach" ->
          IF t[f].b THEN R(t, "dupfid")
          ELSE IF q.out = "fail" THEN R(t, "fs")
-         ELSE R([t EXCEPT ![f] = [b |-> TRUE, o |-> FALSE]], "")
+         ELSE R([t EXCEPT ![f] = [b |-> TRUE, o |-> FALSE, d |-> TRUE]], "")
     [] OTHER -> R(t, "unsupported")
 
 Consume ==
@@ -56,17 +75,28 @@ Consume ==
   /\ LET e == Tr[l] IN
      CASE e.e = "inv" ->
             /\ ~pend[e.p].active
-            /\ pend' = [pend EXCEPT ![e.p] = [active |-> TRUE, lin |-> FALSE, k |-> e.k, f |-> e.f, nf |-> e.nf, out |-> e.out, res |-> ""]]
-            /\ UNCHANGED <<tab, infs>>
+            /\ pend' = [pend EXCEPT ![e.p] = [active |-> TRUE, lin |-> FALSE, k |-> e.k, f |-> e.f, nf |-> e.nf, out |-> e.out, res |-> "", oh |-> 0]]
+            /\ UNCHANGED <<tab, infs, dead, uar, badq>>
        [] e.e = "ret" ->
             /\ pend[e.p].active /\ pend[e.p].lin /\ pend[e.p].res = e.res
+            /\ badq' = (badq \/ (e.k = "open" /\ e.res = "" /\ e.q # pend[e.p].oh))
             /\ pend' = [pend EXCEPT ![e.p] = Idle]
-            /\ UNCHANGED <<tab, infs>>
-       [] e.e = "fse" -> infs' = infs \cup {<<e.h, e.p>>} /\ UNCHANGED <<tab, pend>>
-       [] e.e = "fsx" -> infs' = infs \ {<<e.h, e.p>>} /\ UNCHANGED <<tab, pend>>
+            /\ UNCHANGED <<tab, infs, dead, uar>>
+       [] e.e = "fse" ->
+            /\ infs' = infs \cup {<<e.h, e.p>>}
+            /\ uar' = IF e.h \in dead THEN uar \cup {<<e.h, e.k>>} ELSE uar
+            /\ pend' = IF e.p \in Procs /\ e.k \in {"open", "opendir"} /\ pend[e.p].k = "open"
+                          THEN [pend EXCEPT ![e.p].oh = e.h] ELSE pend
+            /\ UNCHANGED <<tab, dead, badq>>
+       [] e.e = "fsx" ->
+            /\ infs' = infs \ {<<e.h, e.p>>}
+            \* a clunk or remove releases the entry whatever it reports; a successful create consumes the directory entry
+            /\ dead' = IF e.k \in {"clunk", "remove"} \/ (e.k = "create" /\ e.out = "ok") THEN dead \cup {e.h} ELSE dead
+            /\ UNCHANGED <<tab, pend, uar, badq>>
        [] e.e = "reset" ->
             /\ tab' = [f \in Fids |-> Blank] /\ pend' = [p \in Procs |-> Idle] /\ infs' = {}
-       [] OTHER -> UNCHANGED <<tab, pend, infs>>
+            /\ dead' = {} /\ uar' = {} /\ badq' = FALSE
+       [] OTHER -> UNCHANGED <<tab, pend, infs, dead, uar, badq>>
 
 \* linearization point of the pending operation of process p
 Lin(p) ==
@@ -74,13 +104,18 @@ Lin(p) ==
   /\ LET a == SeqApply(tab, pend[p]) IN
      /\ tab' = a.t
      /\ pend' = [pend EXCEPT ![p].lin = TRUE, ![p].res = a.res]
-  /\ UNCHANGED <<l, infs>>
+  /\ UNCHANGED <<l, infs, dead, uar, badq>>
 
 Next == Consume \/ \E p \in Procs : Lin(p)
 Spec == Init /\ [][Next]_vars
 
 \* C14: the file system never sees two overlapping calls on one entry
 MutualExclusion == \A x, y \in infs : x[1] = y[1] => x = y
+
+\* C13/C14: no call on an entry after its release / consumption
+NoUseAfterRelease == uar = {}
+\* a successful open answers with the qid of the entry it opened
+OpenAnswersOwnEntry == ~badq
 
 \* high-water mark of the trace position (needs -workers 1)
 HighWater == TLCSet(1, IF l > TLCGet(1) THEN l ELSE TLCGet(1))
